@@ -31,6 +31,22 @@ fn main() {
     if args.len() < 3 {
         usage();
     }
+    // glibc malloc returns freed memory to the kernel eagerly; with 16 threads building and
+    // dropping millions of small indicators that costs 10x in system time.  Re-exec once with
+    // trimming disabled (pure performance knob, no effect on any verdict).
+    if std::env::var_os("MALLOC_TRIM_THRESHOLD_").is_none() {
+        if let Ok(exe) = std::env::current_exe() {
+            if let Ok(st) = std::process::Command::new(exe)
+                .args(&args[1..])
+                .env("MALLOC_TRIM_THRESHOLD_", "1073741824")
+                .env("MALLOC_TOP_PAD_", "67108864")
+                .env("MALLOC_MMAP_THRESHOLD_", "1073741824")
+                .status()
+            {
+                std::process::exit(st.code().unwrap_or(2));
+            }
+        }
+    }
     match args[1].as_str() {
         "replay" => std::process::exit(report::replay_file(&args[2])),
         "check" => {}
